@@ -544,7 +544,7 @@ def similarity_case(n, counts, flags, es, byComponent):
     bc._validRepresentativeBlockTypes = [FUEL]
     for i in range(n):
         comps = [ccomp(j, {"U235": 0.01}, flags=flags[i][j]) for j in range(counts[i])]
-        bc.append(cblk(reversed(comps), eligible=es[i]))
+        bc.append(cblk(comps if i == 0 else reversed(comps), eligible=es[i]))  # stored order differs between members
     return bc
 
 
@@ -557,7 +557,8 @@ def component_wise_averaging_only_for_members_with_the_same_component_types(n: i
                                                                             c1: int, c2: int, c3: int, e1: bool, e2: bool, e3: bool,
                                                                             byComponent: bool):
     """AverageBlockCollection._checkBlockSimilarity / _performAverageByComponent: 1..3 members (enumerated) of k = 1..3
-    components each (enumerated; stored in reverse radial order), component flags arbitrary integers, any non-empty
+    components each (enumerated; stored in radial order in the first member, reversed in the others), component
+    flags arbitrary integers, any non-empty
     subset eligible: averaging per component is done exactly when it is requested and the components at the same
     (sorted) position of all ELIGIBLE members carry the same flags"""
     n = choose(n, 1, 3)
@@ -722,3 +723,143 @@ def average_representative_block_is_built_from_the_eligible_members_only(n: int,
         for j in range(2):
             assert eq(sc[j].p.numberDensities["U235"], us[i][j]) and eq(sc[j].temperatureInC, Ts[i][j]), "nor are their components"
     assert eq(outsider.p.percentBu, 99.0) and eq(outsider.dens["U235"], ux)
+
+
+@lemma(gen=GENR, stubs=NEW_BLOCK_STUBS)
+def cylindrical_representative_block_averages_matching_components(n: int, v1: float, v2: float, ua1: float, ub1: float, ua2: float, ub2: float,
+                                                                  A1: float, B1: float, A2: float, B2: float, g1: float, g2: float,
+                                                                  b1: float, b2: float, t1: float, t2: float, ux: float):
+    """CylindricalComponentsAverageBlockCollection.createRepresentativeBlock (real _makeRepresentativeBlock,
+    _selectCandidateBlock, _orderComponentsInGroup, _checkComponentConsistency, _getAverageComponentNucs,
+    _calcWeightedBurnup, calcAvgNuclideTemperatures; stub: _getNewBlock): 1..2 eligible members (enumerated) of two
+    components each (stored in reverse radial order; areas, densities, block temperatures symbolic) preceded by an
+    ineligible member: every component of the new block carries the mean of the members' components at the same
+    radial position weighted by block weight x component area; burnup = heavy-metal-weighted mean; members unchanged"""
+    n = choose(n, 1, 2)
+    vs, us, ar = [v1, v2][:n], [(ua1, ub1), (ua2, ub2)][:n], [(A1, B1), (A2, B2)][:n]
+    gs, bs, ts = [g1, g2][:n], [b1, b2][:n], [t1, t2][:n]
+    assume(all(v > 0 for v in vs) and all(a > 0 and b > 0 for a, b in ar) and all(g > 0 for g in gs))
+    bc = Cyl(NUCS)
+    bc._validRepresentativeBlockTypes = [FUEL]
+    outsider = full_member("cyl", 7.0, 0.0, (ux, ux), (1.0, 1.0), (-40.0, -40.0), (5.0, 5.0), 9.0, 99.0, False, "X", 5000.0)
+    bc.append(outsider)
+    members = [full_member("cyl", vs[i], 0.0, us[i], ar[i], (300.0, 400.0), (1.0, 1.0), gs[i], bs[i], True, "M%d" % i, ts[i]) for i in range(n)]
+    for b in members:
+        bc.append(b)
+    rep = bc.createRepresentativeBlock()
+    assert not any(same(rep, b) for b in bc), "a new block, not a member"
+    rc = sorted(rep)
+    assert len(rc) == 2
+    for j in range(2):
+        mean_eq(rc[j].p.numberDensities["U235"], [vs[i] * ar[i][j] for i in range(n)], [us[i][j] for i in range(n)], "density of component %d" % j)
+    mean_eq(rep.p.percentBu, gs, bs, "burnup")
+    assert len(bc.avgNucTemperatures) == 2
+    for i in range(n):
+        sc = sorted(members[i])
+        assert all(eq(sc[j].p.numberDensities["U235"], us[i][j]) for j in range(2)) and eq(members[i].p.percentBu, bs[i]), "members are not changed"
+    assert eq(outsider.p.percentBu, 99.0) and eq(outsider.comps[0].p.numberDensities["U235"], ux)
+
+
+@lemma(gen=GENR, stubs=NEW_BLOCK_STUBS)
+def slab_representative_block_averages_matching_plates(n: int, mirrored: bool, v1: float, v2: float, ua1: float, ub1: float, ua2: float,
+                                                       ub2: float, A1: float, B1: float, g1: float, g2: float, b1: float, b2: float, ux: float):
+    """SlabComponentsAverageBlockCollection.createRepresentativeBlock (real _makeRepresentativeBlock,
+    _orderComponentsInGroup, _checkComponentConsistency, _reverseComponentOrder, _getAverageComponentNucs,
+    _removeLatticeComponents, _calcWeightedBurnup; stub: _getNewBlock): 1..2 eligible members (enumerated) = two plates
+    of areas A1 != B1 + the lattice component (the second member possibly with its plates in reverse order),
+    preceded by an ineligible member: each plate of the new block carries the mean of the MATCHING plates (same
+    dimensions) weighted by block weight x area, the lattice component is gone; members unchanged"""
+    n = choose(n, 1, 2)
+    vs, us, gs, bs = [v1, v2][:n], [(ua1, ub1), (ua2, ub2)][:n], [g1, g2][:n], [b1, b2][:n]
+    assume(all(v > 0 for v in vs) and A1 > 0 and B1 > 0 and A1 != B1 and all(g > 0 for g in gs))
+    bc = Slab(NUCS)
+    bc._validRepresentativeBlockTypes = [FUEL]
+    outsider = full_member("slab", 7.0, 0.0, (ux, ux), (A1, B1), None, None, 9.0, 99.0, False, "X", 0.0)
+    bc.append(outsider)
+    members = []
+    for i in range(n):
+        b = full_member("slab", vs[i], 0.0, us[i], (A1, B1), None, None, gs[i], bs[i], True, "M%d" % i, 0.0)
+        if i == 1 and mirrored:
+            b.comps.reverse()
+        b.comps.append(rcomp({}, area=0.0, lattice=True))
+        members.append(b)
+        bc.append(b)
+    rep = bc.createRepresentativeBlock()
+    assert not any(same(rep, b) for b in bc), "a new block, not a member"
+    assert len(rep.comps) == 2 and not any(c.isLatticeComponent() for c in rep.comps), "two plates, no lattice component"
+    for j in range(2):
+        assert eq(rep.comps[j].getArea(), [A1, B1][j])
+        mean_eq(rep.comps[j].p.numberDensities["U235"], [vs[i] * [A1, B1][j] for i in range(n)], [us[i][j] for i in range(n)], "density of plate %d" % j)
+    mean_eq(rep.p.percentBu, gs, bs, "burnup")
+    for i in range(n):
+        assert len(members[i].comps) == 3 and eq(members[i].p.percentBu, bs[i]), "members are not changed"
+        for c in members[i].comps:
+            if not c.lattice:
+                assert eq(c.p.numberDensities["U235"], us[i][0] if c.area == A1 else us[i][1])
+    assert eq(outsider.p.percentBu, 99.0) and eq(outsider.comps[0].p.numberDensities["U235"], ux)
+
+
+# ------------------------------------------------------------------------------------------ the same with fixed weights
+# Companions of the general lemmas above with CONCRETE weights and symbolic values: linear arithmetic, so that a wrong
+# weight or a wrong normalisation is refuted with a model at once (the general statements are above).
+@lemma(gen=GENA)
+def matching_component_average_with_fixed_weights(slab: bool, u1: float, u2: float, u3: float, c1: float, c3: float):
+    """three matching components with block weights 2, 3, 1/2 and areas 1, 4, 2; FE56 is listed by the first and the
+    third only"""
+    comps = [ccomp(0, {"U235": u1, "FE56": c1}, area=1.0), ccomp(0, {"U235": u2}, area=4.0), ccomp(0, {"FE56": c3, "U235": u3}, area=2.0)]
+    bc = Slab(NUCS) if slab else Cyl(NUCS)
+    names, dens = bc._getAverageComponentNucs(comps, [2.0, 3.0, 0.5])
+    assert names == ["FE56", "U235"]
+    assert eq(dens[1] * 15.0, 2.0 * u1 + 12.0 * u2 + 1.0 * u3)
+    assert eq(dens[0] * 15.0, 2.0 * c1 + 1.0 * c3)
+    names, dens = bc._getAverageComponentNucs([ccomp(0, {"U235": u1}, area=0.0), ccomp(0, {"U235": u2}, area=0.0)], [2.0, 3.0])
+    assert names == ["U235"] and eq(dens[0], 0.0), "components without area (the lattice component): zero"
+
+
+@lemma(gen=GENU, stubs={"armi.reactor.converters.blockConverters:stripComponents": "strip_contract"},
+       overrides={"armi.physics.neutronics.crossSectionGroupManager:Flags": "DuctFlags"})
+def cylindrical_nuclide_temperatures_with_fixed_weights(ductHet: bool, Ta1: float, Tb1: float, Td1: float, Ta2: float, Tb2: float, Td2: float,
+                                                        v2: float):
+    """two eligible members of volumes 2 and 3 (+ one ineligible), components inside the duct with U235 densities 0.01
+    / 0 (= trace) and 0.02 / 0.004 and volume fractions 1/4, 1/4 and 1/2, 1/4; the duct (U235 0.5, FE56 0.04) takes
+    the rest; the six component temperatures symbolic"""
+    bc = DuctHet(NUCS) if ductHet else Cyl(NUCS)
+    bc._validRepresentativeBlockTypes = [FUEL]
+    bc.append(cblk([tcomp(0, 0.01, Ta1, 0.25, True), tcomp(1, 0.0, Tb1, 0.25, True), tcomp(2, 0.5, Td1, 0.5, False, fe=0.04)], vol=2.0))
+    bc.append(cblk([tcomp(0, 0.3, 1000.0, 0.5, True), tcomp(1, 0.3, 2000.0, 0.5, False, fe=0.3)], vol=v2, eligible=False))
+    bc.append(cblk([tcomp(0, 0.02, Ta2, 0.5, True), tcomp(1, 0.004, Tb2, 0.25, True), tcomp(2, 0.5, Td2, 0.25, False, fe=0.04)], vol=3.0))
+    bc.calcAvgNuclideTemperatures()
+    tr = xsgm.TRACE_NUMBER_DENSITY
+    # weight of a component: block weight (= volume) x density x volume fraction x block volume
+    w = [2.0 * 0.01 * 0.25 * 2.0, 2.0 * tr * 0.25 * 2.0, 2.0 * 0.5 * 0.5 * 2.0, 3.0 * 0.02 * 0.5 * 3.0, 3.0 * 0.004 * 0.25 * 3.0, 3.0 * 0.5 * 0.25 * 3.0]
+    T = [Ta1, Tb1, Td1, Ta2, Tb2, Td2]
+    use = [0, 1, 3, 4] if ductHet else [0, 1, 2, 3, 4, 5]
+    assert eq(bc.avgNucTemperatures["U235"] * sum(w[k] for k in use), sum(w[k] * T[k] for k in use))
+    if ductHet:
+        assert eq(bc.avgNucTemperatures["FE56"], 0.0)
+    else:
+        fe = [2.0 * 0.04 * 0.5 * 2.0, 3.0 * 0.04 * 0.25 * 3.0]
+        assert eq(bc.avgNucTemperatures["FE56"] * (fe[0] + fe[1]), fe[0] * Td1 + fe[1] * Td2)
+
+
+@lemma(gen=GENR, stubs=NEW_BLOCK_STUBS)
+def average_representative_block_with_fixed_weights(byComponent: bool, ua1: float, ub1: float, ua2: float, ub2: float, Ta1: float, Tb1: float,
+                                                    Ta2: float, Tb2: float, b1: float, b2: float, ux: float):
+    """two eligible members of volumes 1 and 3, component masses (3, 1) and (2, 5), heavy-metal masses 1.5 and 4
+    (height 2 each) + one ineligible member; densities, temperatures, burnups symbolic"""
+    bc = Average(NUCS, averageByComponent=byComponent)
+    bc._validRepresentativeBlockTypes = [FUEL]
+    bc.append(full_member("avg", 1.0, 0.0, (ua1, ub1), (1.0, 1.0), (Ta1, Tb1), (3.0, 1.0), 1.5, b1, True, "M0", 0.0))
+    bc.append(full_member("avg", 7.0, 0.0, (ux, ux), (1.0, 1.0), (-40.0, -40.0), (5.0, 5.0), 9.0, 99.0, False, "X", 0.0))
+    bc.append(full_member("avg", 3.0, 0.0, (ua2, ub2), (1.0, 1.0), (Ta2, Tb2), (2.0, 5.0), 4.0, b2, True, "M1", 0.0))
+    rep = bc.createRepresentativeBlock()
+    rc = sorted(rep.getComponents())
+    if byComponent:
+        assert eq(rc[0].p.numberDensities["U235"] * 4.0, ua1 + 3.0 * ua2) and eq(rc[1].p.numberDensities["U235"] * 4.0, ub1 + 3.0 * ub2)
+        # weight / height x mass: (1/2) x 3, (3/2) x 2 for the inner component; (1/2) x 1, (3/2) x 5 for the outer one
+        assert eq(rc[0].temperatureInC * 4.5, 1.5 * Ta1 + 3.0 * Ta2)
+        assert eq(rc[1].temperatureInC * 8.0, 0.5 * Tb1 + 7.5 * Tb2)
+    else:
+        assert eq(rep.dens["U235"] * 4.0, 0.5 * (ua1 + ub1) + 3.0 * 0.5 * (ua2 + ub2))
+        assert eq(rc[0].p.numberDensities["U235"], ua1) and eq(rc[0].temperatureInC, Ta1), "components as in the template"
+    assert eq(rep.p.percentBu * 5.5, 1.5 * b1 + 4.0 * b2)
